@@ -148,8 +148,12 @@ def trade_outcomes(side, is_buy, request, token, mode, limit=None, cap_bound=Non
                     edge = True
                 elif d < band:
                     cands.append(i)
+            exact = [i for i in cands if side[i][0] == limit]
+            if len(exact) == 1:
+                cands, edge = exact, False  # the level that carries the limit price IS "that level", however close its neighbours
             if edge or len(cands) > 1:
-                # which level "that level" is, is not decided by the text: anything goes
+                # no level carries the price itself and several lie within the band: which one "that level" is, is not
+                # decided by the text: anything goes
                 return [Reject("ambiguous"), Fill(q, [], "ambiguous")]
             if not cands:
                 res = [Reject("no_level_at_price")]
